@@ -43,6 +43,7 @@ CHECKS = {
  "C12": vs("4/C12", "The real Connect loop on a virtual clock, single thread: 576 Backoff configurations (all combinations of the listed values); inside each the explorer enumerates EVERY history of attempt outcomes up to the bound (failure, connect+drop, server retry fields valid and invalid) and the random draws (median plus deviation-bounded extremes at every position). The closed-form schedule is compared with OnRetry's waits, the durations the timer was armed with and the virtual times of the attempts."),
  "C13": vs("4/C13", "Sequential: EVERY sequence of <= 5 (6) operations {subscribe a / b / unnamed / all, call any remover returned so far (repeated, stale), deliver an event of type '' / a / b / c} chosen by the explorer and executed between two events on the Connect goroutine (or all before Connect), against a list model of live subscriptions. Concurrent: Connect dispatching while threads subscribe, remove, remove twice, re-subscribe and call stale removers, fast and slow callbacks: ALL interleavings of the instrumented RWMutex operations and all map orders, with online oracles (no invocation after the remover returned; exactly once for callbacks live across the dispatch; stream order)."),
  "C17": vs("4/C17", "Three (four) subscribers with one failing at its k-th call, a publisher, and a replayer whose k-th Put/Replay errs or panics (all enumerated): ALL schedules, map orders exhaustively in the racing scenarios and deviation-bounded in the phased ones; the delivery oracle demands for the healthy subscribers exactly what C03 demands, as if the failing one did not exist."),
+ "C05": vs("4/C05", "Whole stack in one process under the controlled scheduler: real Server + Joe + replayer and real Client/Connection, the transport runs ServeHTTP on a handler thread per attempt and pipes the ResponseWriter into the response body. After the client's first event the connection is severed after ANY byte of ANY write (one cut), or at every write boundary / mid-write with TWO cuts (first cut enumerated as scenarios, second by the explorer), or a killer thread ends started handlers (clean end of body); thread switches at blocking points (plus one preemption in the fault-free scenario), all select tie-breaks. Oracle: the client sees exactly the published sequence from its first event on; no panic; writes after ServeHTTP returned are failures; everything terminates."),
  "C06": dict(engine="vsched", category="model_checking", design="4/C06",
    technique="stateless model checking of the instrumented implementation: exhaustive DFS over all interleavings, select tie-breaks, map orders and fault positions, with state-key pruning",
    text="Every scenario (1-3 subscribers with failing/cancelling writers, cancellers, publisher, concurrent Shutdown, failing replayer) is explored over ALL schedules at synchronisation granularity; the oracle (no panic, no deadlock, no writer call after Subscribe returned, Subscribe returns the subscriber's own error) is evaluated on every execution. Within the scenario bounds this is a coverage statement, not a sample.",
